@@ -67,6 +67,7 @@ JudgeCase(C) ==
                [] C.kind = "cmp" -> JudgeCmp(C)
                [] C.kind = "sort" -> JudgeSort(C)
                [] C.kind = "eq" -> JudgeEq(C)
+               [] C.kind = "variant" -> IF Variant(C.x, C.y) THEN "" ELSE "not-a-variant"
   IN  [ id |-> C.id, ok |-> why = "", why |-> why ]
 
 Results == [ c \in DOMAIN Cases |-> JudgeCase(Cases[c]) ]
